@@ -410,9 +410,22 @@ def _shift_mask(e):
     return (None, mask)
 
 
-def _loads(expr):
+def _loads(expr, fn=None):
     """{offset k: (shift, andmask)} for an OR-tree of (cast)(*(self->pos + k) [& m]) << s"""
     out = {}
+    consts = cq.const_locals(fn) if fn is not None else {}
+
+    def deref_local(e):
+        """a single-definition local that holds one loaded byte (`const uint8_t first = *(self->pos);`) stands for its initialiser"""
+        if e.get("kind") == "DeclRefExpr" and e.get("referencedDecl", {}).get("name") in consts:
+            name = e["referencedDecl"]["name"]
+            for d in cq.preorder(cq.body(fn)):
+                if d.get("kind") == "VarDecl" and d.get("name") == name and cq.kids(d):
+                    x = strip(cq.kids(d)[-1])
+                    while x.get("kind") in ("CStyleCastExpr", "ParenExpr"):
+                        x = strip(cq.kids(x)[0])
+                    return x
+        return e
 
     def leaf(e):
         e = strip(e)
@@ -428,8 +441,9 @@ def _loads(expr):
             e = strip(cq.kids(e)[0])
             while e.get("kind") in ("CStyleCastExpr", "ParenExpr"):
                 e = strip(cq.kids(e)[0])
+        e = deref_local(e)
         if e.get("kind") == "UnaryOperator" and e.get("opcode") == "*":
-            t = ctext(strip(cq.kids(e)[0])).replace("(", "").replace(")", "")
+            t = (cq.rtext(fn, strip(cq.kids(e)[0])) if fn is not None else ctext(strip(cq.kids(e)[0]))).replace("(", "").replace(")", "")
             k = 0
             if t.startswith("self->pos + "):
                 k = int(t[len("self->pos + ") :])
@@ -490,7 +504,7 @@ def r4(repo, chk, ref):
         loads = None
         for node in cq.preorder(cq.body(pl)):
             if node.get("kind") in ("VarDecl",) and node.get("name") == "value" and cq.kids(node):
-                loads = _loads(cq.kids(node)[0])
+                loads = _loads(cq.kids(node)[0], pl)
             if node.get("kind") == "ReturnStmt" and loads is None and nb == 1:
                 # pull_uint8: return PyLong_FromLong(*(self->pos++))
                 for c in cq.preorder(node):
@@ -545,7 +559,7 @@ def r4(repo, chk, ref):
     # varint decoder: switch on *(pos) >> 6
     pl = cu.func("Buffer_pull_uint_var")
     sw = next((x for x in cq.preorder(cq.body(pl)) if x.get("kind") == "SwitchStmt"), None)
-    ok = sw is not None and ctext(strip(cq.kids(sw)[0])).replace("(", "").replace(")", "") == "*self->pos >> 6"
+    ok = sw is not None and cq.rtext(pl, strip(cq.kids(sw)[0])).replace("(", "").replace(")", "") == "*self->pos >> 6"
     chk.ob("R4", "Buffer.pull_uint_var selects the length from the two most significant bits", ok, "", cu.loc(pl))
     if sw is not None:
         cases = []
@@ -562,7 +576,7 @@ def r4(repo, chk, ref):
             for part in c[1:]:
                 for n_ in cq.preorder(part):
                     if n_.get("kind") == "BinaryOperator" and n_.get("opcode") == "=" and ctext(strip(cq.kids(n_)[0])) == "value":
-                        loads = _loads(cq.kids(n_)[1])
+                        loads = _loads(cq.kids(n_)[1], pl)
                     if n_.get("kind") == "CompoundAssignOperator" and n_.get("opcode") == "+=" and ctext(strip(cq.kids(n_)[0])) == "self->pos":
                         need = cq.ceval(cq.kids(n_)[1])
                     if n_.get("kind") == "UnaryOperator" and n_.get("opcode") == "++" and need is None and "self->pos" in ctext(n_):
